@@ -161,6 +161,8 @@ pub mod command;
 pub mod testing;
 #[cfg(feature = "typegen")]
 pub mod typegen;
+#[cfg(feature = "crux_verif")]
+pub mod verif_sched;
 
 mod capabilities;
 mod core;
